@@ -26,4 +26,16 @@ MC_SUBCHECK(galilei)
     h.add("m.so3() *= value#1.so3()", 6, 4, [](auto & x, const auto & p) { x.so3() *= p.g[1].so3(); });
     h.run(d);
   }
+  {
+    using G = SE_K_3<double, 3>;
+    c16::Harness<G> h("SE_3_3d");
+    h.add("m.r3<0>() = value#1.r3<0>()", 0, 3, [](auto & x, const auto & p) { x.template r3<0>() = p.g[1].template r3<0>(); });
+    h.add("m.r3<1>() *= 2", 3, 3, [](auto & x, const auto &) { x.template r3<1>() *= 2; });
+    h.add("m.r3<2>() = value#2.r3<2>()", 6, 3, [](auto & x, const auto & p) { x.template r3<2>() = p.g[2].template r3<2>(); });
+    h.add("m.r3(2).setZero()", 6, 3, [](auto & x, const auto &) { x.r3(2).setZero(); });
+    h.add("m.r3(1) = value#1.r3(1)", 3, 3, [](auto & x, const auto & p) { x.r3(1) = p.g[1].r3(1); });
+    h.add("m.so3() = value#2.so3()", 9, 4, [](auto & x, const auto & p) { x.so3() = p.g[2].so3(); });
+    h.add("m.so3() *= value#1.so3()", 9, 4, [](auto & x, const auto & p) { x.so3() *= p.g[1].so3(); });
+    h.run(d > 3 ? d - 1 : d);
+  }
 }
